@@ -50,6 +50,7 @@ type Contract struct {
 	Inline   bool // callers execute the body instead of using the contract
 	Steps    map[int][]*Clause // loop ordinal → two-state clauses checked at back edges
 	Stable   map[string]bool   // ensures labels assumed by the spawner after the join
+	Before   map[string][]*Clause // callee name → assertions checked in the state just before each call of it
 }
 
 type ghostDecl struct {
@@ -123,7 +124,7 @@ func (w *World) parseContracts(pkgs []*packages.Package) error {
 	return nil
 }
 
-var keywords = map[string]bool{"func": true, "closure": true, "assume": true, "requires": true, "ensures": true, "modifies": true, "loop": true,
+var keywords = map[string]bool{"func": true, "before": true, "closure": true, "assume": true, "requires": true, "ensures": true, "modifies": true, "loop": true,
 	"safety": true, "ghost": true, "monitor": true, "inv": true, "spawn": true, "pure": true, "note": true, "cover": true, "lemma": true, "iface": true, "noinline": true, "trusted": true, "inline": true, "stable": true}
 
 func firstWord(s string) string {
@@ -231,6 +232,21 @@ func (w *World) parseContractLines(sp *ssa.Package, lines, poss []string) error 
 				return err
 			}
 			cur.Loops[ord] = append(cur.Loops[ord], cl)
+		case "before":
+			// before CALLEE assert[label] EXPR: checked in the caller's state right before every call of CALLEE
+			f := strings.SplitN(rest, " ", 2)
+			if len(f) != 2 || !strings.HasPrefix(strings.TrimSpace(f[1]), "assert") {
+				return fmt.Errorf("%s: before CALLEE assert[label] EXPR", pos)
+			}
+			cl, err := parseClause("invariant"+strings.TrimPrefix(strings.TrimSpace(f[1]), "assert"), pos)
+			if err != nil {
+				return err
+			}
+			if cur.Before == nil {
+				cur.Before = map[string][]*Clause{}
+			}
+			cur.Before[f[0]] = append(cur.Before[f[0]], cl)
+			cur.Verify = true
 		case "modifies":
 			cur.HasMod = true
 			for _, m := range splitTop(rest, ',') {
